@@ -157,6 +157,10 @@ func RunRace(sc *ConcScenario) *ConcResult {
 	}
 	bridge.SetMinTableLen(ml)
 	defer bridge.SetMinTableLen(32)
+	if sc.MinCap > 0 {
+		bridge.SetMinCapacity(sc.MinCap)
+		defer bridge.SetMinCapacity(96)
+	}
 	payloadMode = true
 	sim := simrt.New(simrt.Config{Seed: sc.SchedSeed, Strategy: sc.Strategy, Epoch: sc.Epoch, StepBudget: 400000, Replay: sc.Replay})
 	defer sim.Close()
